@@ -391,7 +391,9 @@ fn single_series(em: &mut Emitter, rng: &mut Rng, s: &Series, full: bool) {
     use tevec::prelude::{TIter, Vec1View};
     let all = 15usize;
     // which extra sources to run: everything on small inputs (`full`), a random half otherwise
-    let pick = |rng: &mut Rng| full || rng.chance(1, 2);
+    // (a random quarter for the 4096 exhaustive series of length 6 of the thorough tier)
+    let den = if s.tags.contains("exhaustive") && s.len() >= 6 { 4 } else { 2 };
+    let pick = |rng: &mut Rng| full || rng.chance(1, den);
     // ---- f64 (NaN null) ------------------------------------------------------------------
     let xf = s.f64s();
     let cf = coq_f(&xf);
@@ -749,7 +751,7 @@ fn main() {
     let alphabet: [Option<i64>; 4] = [Some(-1), Some(0), Some(2), None];
 
     // ---- single series: exhaustive small scope -----------------------------------------------
-    let exh_len = if thorough { 7 } else { 5 };
+    let exh_len = if thorough { 6 } else { 5 };
     for len in 0..=exh_len {
         for k in enumerate(&alphabet, len) {
             let s = Series { k, den: 1, tags: "style=exhaustive nulls=enum".into() };
@@ -769,7 +771,7 @@ fn main() {
         }
     }
     // ---- single series: structured random ------------------------------------------------------
-    let nrand = if thorough { 3000 } else { 300 };
+    let nrand = if thorough { 2000 } else { 300 };
     let mut randoms: Vec<Series> = vec![];
     for i in 0..nrand {
         let len = match i % 4 { 0 => rng.range(1, 6), 1 => rng.range(4, 12), _ => rng.range(6, 40) } as usize;
@@ -780,7 +782,7 @@ fn main() {
     }
 
     // ---- two series ----------------------------------------------------------------------------
-    let pair_len = if thorough { 4 } else { 3 };
+    let pair_len = 3;
     for len in 0..=pair_len {
         let second: Vec<Vec<Option<i64>>> =
             if len <= (if thorough { 3 } else { 2 }) { enumerate(&alphabet, len) } else { enumerate(&[Some(0), Some(2), None], len) };
@@ -819,7 +821,8 @@ fn main() {
     let mask_alpha = [Some(true), Some(false), None];
     let mask_len = if thorough { 4 } else { 3 };
     for len in 0..=mask_len {
-        for k in enumerate(&alphabet, len) {
+        let data_alpha: Vec<Option<i64>> = if len <= 3 { alphabet.to_vec() } else { vec![Some(-1), Some(2), None] };
+        for k in enumerate(&data_alpha, len) {
             let s = Series { k, den: 1, tags: "style=exhaustive".into() };
             for m in enumerate(&mask_alpha, len) {
                 masked(&mut em, &mut rng, &s, &m, len <= 2);
